@@ -54,7 +54,7 @@ func runClientConnRT(t *testing.T, seed int64, log *traceLog) {
 	}
 	log.add(map[string]any{"e": "Reset", "seed": seed, "profile": "rt"})
 	var wg sync.WaitGroup
-	var ready, round atomic.Int32
+	var ready, ready2, round atomic.Int32
 	for wi := 0; wi < writers; wi++ {
 		wi := wi
 		wg.Add(1)
@@ -71,10 +71,15 @@ func runClientConnRT(t *testing.T, seed int64, log *traceLog) {
 				}
 				_, werr := relay.WriteTo(pay, p.addr)
 				log.add(map[string]any{"e": "WriteRet", "pay": id, "ok": werr == nil})
-				if r%8 == 7 { // now and then a second datagram to the same peer (ChannelData once the binding is there)
+				if r%4 == 3 {
+					// every fourth round all writers send a second datagram to their peer at the same instant again
+					// (ChannelData once the binding is confirmed): the encoders of parallel writers must not share state
 					id2 := id + "b"
 					log.add(map[string]any{"e": "WriteCall", "p": p.rec(), "pay": id2})
-					_, werr = relay.WriteTo([]byte(id2+"|y"), p.addr)
+					ready2.Add(1)
+					for ready2.Load() < int32((r/4+1)*writers) {
+					}
+					_, werr = relay.WriteTo([]byte(id2+"|"+strings.Repeat("y", 1+wi*3)), p.addr)
 					log.add(map[string]any{"e": "WriteRet", "pay": id2, "ok": werr == nil})
 				}
 				round.Add(1)
